@@ -1070,6 +1070,43 @@ def exhaustive16(run, ctx, where):
               if not bad else f'{bad} pairs differ, first {first}', where)
 
 
+def check_binding(run, prog):
+    """O5: what callers get under the names crc16 / crc32c is the analysed function: a decorator or wrapper around it must hand back, for every
+    call in every history, the analysed function's result for the same arguments (decided on symbolic inputs, with the analysed functions summarised)"""
+    from ..interp import Interp
+    from ..values import Sym, K, RaiseEx, Fail
+    it = Interp(prog)
+    it.INJECTIVE_KEYS = True
+    mod = 'crypto.crc'
+    where = 'pytoniq_core/crypto/crc.py'
+    D = {n: Sym(f'D{n}', ty='bytes', n=n, key=('crcdata', n)) for n in (0, 2, 34, 64, 65, 100, 5000)}
+    E = Sym('E34', ty='bytes', n=34, key=('crcdata', 'e'))
+    hist = []
+    for n in (34, 0, 2, 64, 65, 100, 5000):
+        hist += [('crc16', D[n], {}), ('crc32c', D[n], {}), ('crc32c', D[n], {'byteorder': K('big')}), ('crc16', D[n], {}), ('crc32c', D[n], {}),
+                 ('crc32c', D[n], {'byteorder': K('little')})]
+    hist += [('crc16', E, {}), ('crc32c', E, {}), ('crc16', D[34], {}), ('crc32c', D[34], {'byteorder': K('big')})]
+    for i, (fname, data, kw) in enumerate(hist):
+        inner = prog.func(fname, module=mod)
+        want = it.summary(inner, [data], dict(kw))
+        tag = f'{fname}({data.name}{", byteorder=" + kw["byteorder"].v if kw else ""}) as call #{i + 1}'
+        try:
+            got = it.call(it.global_lookup(fname, mod), [data], dict(kw))
+            ok = want is not None and repr(it.vkey(got)) == repr(it.vkey(want))
+            detail = f'{tag}: returns {vrepr(got)[:70]}' + ('' if ok else f'; the analysed function gives {vrepr(want)[:70]} for these arguments')
+        except RaiseEx as e:
+            ok, detail = False, f'{tag}: raises {e}'
+        except Fail as e:
+            raise AnalysisError(f'{fname}: the wrapper around the analysed function cannot be followed: {e}')
+        run.check(ok, 'O5', f'{fname}.binding' if not ok else f'{fname}.binding[{i}]', detail, where)
+        run.evaluations += 1
+
+
+def vrepr(v):
+    from ..values import vrepr as _v
+    return _v(v)
+
+
 def check(run):
     prog = Program()
     run.explanation = ('GF(2)-affine abstract interpretation of crc16/crc32c: literal tables == tables generated from the '
@@ -1083,12 +1120,14 @@ def check(run):
     run.rule('O3', 'initial value', 2)
     run.rule('O3b', 'output: final xor, result width, byte order / byteorder parameter reaches to_bytes', 2)
     run.rule('O4', 'loop visits every input byte in order without early exit', 2)
+    run.rule('O5', 'the names crc16 / crc32c, as callers see them (decorators applied), return the analysed function\'s result for the same arguments in every call history (symbolic inputs of 0..5000 bytes, both functions interleaved)', 40)
     run.trust('CPython ast parser', "the checker's GF(2) bit-vector evaluator (xor/shift/mask/linear lookup)",
               'transcription of CRC-16/XMODEM and CRC-32C bitwise definitions in sa/rules/C18.py')
     run.exhaustive = True
     ctxs = {}
     for fname in ('crc16', 'crc32c'):
         ctxs[fname] = check_fn(run, prog, fname)
+    check_binding(run, prog)
     if run.tier == 'thorough':
         run.rule('O2x', 'CRC-16: exhaustive 2^24 cross-check of the oracle identity', 1)
         exhaustive16(run, ctxs['crc16'], 'pytoniq_core/crypto/crc.py')
